@@ -758,6 +758,9 @@ func GetWrapTokenRequests(context db.DB) ([]*WrapTokenRequest, error) {
 			}
 			break
 		}
+		if len(iterator.Value()) == 0 {
+			continue
+		}
 		if info, err := parseWrapTokenRequest(iterator.Value(), iterator.Key()); err == nil && info != nil {
 			list = append(list, info)
 		} else {
@@ -901,6 +904,9 @@ func GetUnwrapTokenRequests(context db.DB) ([]*UnwrapTokenRequest, error) {
 				return nil, iterator.Error()
 			}
 			break
+		}
+		if len(iterator.Value()) == 0 {
+			continue
 		}
 		if info, err := parseUnwrapTokenRequest(iterator.Value(), iterator.Key()); err == nil && info != nil {
 			list = append(list, info)
